@@ -63,7 +63,7 @@ def replay_line(job, path):
     steps = {'n': 0}
     try:
         w = None
-        dg = run_e2(spec, lambda: make_monitors(mons), [tuple(x) for x in path])
+        dg = run_e2(spec, lambda: make_monitors(mons), [tuple(x) for x in path], prefix_ok=True)
         return {'final': dg}
     except Violation as v:
         return {'clause': v.clause, 'detail': v.detail, 'step': getattr(v, 'mc_steps', 0)}
